@@ -89,3 +89,35 @@ func Harness_C15_publish_nil() {
 		verifAssert(len(t) == 1, "nilable_target_receives_the_value")
 	}
 }
+
+// C15 publish_cancel_during: a publish with its own (live) context; subscription 1's target is full and its
+// context is cancelled by the environment immediately before one of reflect.Select's evaluations (every
+// choice of which one, via the verifBefore hook); subscription 0 is eligible throughout. The publish must
+// deliver to subscription 0 exactly once, drop subscription 1 when it is cancelled, and return.
+func Harness_C15_publish_cancel_during() {
+	var n Notifier
+	t0, t1 := make(chan vtok, 1), make(chan vtok, 1)
+	pctx, pcancel := context.WithCancel(context.Background())
+	_ = pcancel
+	ctx0, _ := context.WithCancel(context.Background())
+	ctx1, c1 := context.WithCancel(context.Background())
+	t1 <- vtok(1) // full: subscription 1 can only leave through its context
+	n.SubscribeContext(ctx0, "k", t0)
+	n.SubscribeContext(ctx1, "k", t1)
+	selects := 0
+	cancelAt := verifNondetInt("cancel_before_select")
+	verifAssume(cancelAt >= 0 && cancelAt <= 1)
+	verifBefore("reflect.Select", func() {
+		if selects == cancelAt {
+			c1()
+		}
+		selects++
+	})
+	n.PublishContext(pctx, "k", vtok(7))
+	verifAssert(len(t0) == 1, "eligible_subscription_receives_exactly_once")
+	v := <-t0
+	verifAssert(v == vtok(7), "eligible_subscription_receives_the_value")
+	verifAssert(len(t1) == 1, "cancelled_full_target_untouched")
+	verifAssert(selects == 2, "one_select_per_departure")
+	verifReach("end")
+}
